@@ -146,6 +146,17 @@ type ChanDecl struct {
 	Tags      []string
 }
 
+// ChanLog: every value sent on the channel held in T.f is appended to the ghost
+// log (countGhost, contentGhost); receives consume from (recvGhost).
+type ChanLog struct {
+	PkgPath string
+	Type    string
+	Field   string
+	N       string
+	At      string
+	Recv    string
+}
+
 type GlobalDecl struct {
 	PkgPath string
 	Name    string
@@ -170,6 +181,7 @@ type Contracts struct {
 	Ghosts map[string]*GhostDecl
 	GhostFields map[string]string  // name -> type: ghost attributes of objects (arrays GF_<name>)
 	Unscoped    map[string][]string // pkgpath::key -> property tags: functions outside a discipline sweep
+	ChanLogs    []*ChanLog          // ghost logs of channel fields
 	Globals map[string]*GlobalDecl // pkgpath.Name
 	forallNames map[string]bool
 	Files  []string
@@ -307,7 +319,7 @@ func matchParen(s string, i int) int {
 }
 
 var topKeywords = map[string]bool{"func": true, "closure": true, "spec": true, "lemma": true, "interface": true,
-	"field": true, "chan": true, "ghost": true, "axiom": true, "global": true, "ghostfield": true, "unscoped": true}
+	"field": true, "chan": true, "ghost": true, "axiom": true, "global": true, "ghostfield": true, "unscoped": true, "chanlog": true}
 
 var clauseKeywords = map[string]bool{"requires": true, "ensures": true, "modifies": true, "safety": true, "pure": true,
 	"inline": true, "may_panic": true, "witness": true, "lemma": true, "role": true, "holds": true, "acquires": true,
@@ -805,6 +817,14 @@ func (cs *Contracts) parseBlock(b []cline, path, pkgPath string) {
 	case "ghostfield":
 		f := strings.Fields(rest)
 		cs.GhostFields[f[0]] = f[1]
+	case "chanlog":
+		f := strings.Fields(rest)
+		dot := strings.LastIndex(f[0], ".")
+		cl := &ChanLog{PkgPath: pkgPath, Type: f[0][:dot], Field: f[0][dot+1:], N: f[1], At: f[2]}
+		if len(f) > 3 {
+			cl.Recv = f[3]
+		}
+		cs.ChanLogs = append(cs.ChanLogs, cl)
 	case "unscoped":
 		tags, _, body := parseTagged(rest)
 		for _, k := range splitTop(body, ',') {
